@@ -203,6 +203,11 @@ def norm_stem(t, param):
     if t[0] == "idx" and t[1][0] == "mcall" and t[1][2] == "split" and t[1][3] == (C("/"),) and t[2] == C(-1):
         x = norm_stem(t[1][1], param)
         return None if x is None else ("basename", x)
+    if t[0] == "idx" and t[1][0] == "mcall" and t[1][2] == "split" and t[1][3] in ((C("/"),), (C("."),)) and is_const(t[2]) and isinstance(t[2][1], int) \
+            and not (t[1][3] == (C("."),) and t[2] == C(0)):
+        # another component of the path / of the dotted name: a directory, the extension, ...
+        x = norm_stem(t[1][1], param)
+        return None if x is None else ("component %d of split(%r)" % (t[2][1], t[1][3][0][1]), x)
     if (t[0] == "call" and t[1] == "os.path.basename" and len(t[2]) == 1) or (t[0] == "mcall" and t[2] == "basename" and len(t[3]) == 1):
         x = norm_stem(t[2][0] if t[0] == "call" else t[3][0], param)
         return None if x is None else ("basename", x)
@@ -245,7 +250,7 @@ def path_text(np):
     def st(x):
         if x == ("param",):
             return "file_name"
-        return "%s(%s)" % ({"basename": "base name", "cutdot": "cut at first dot", "cutext": "strip last extension"}[x[0]], st(x[1]))
+        return "%s(%s)" % ({"basename": "base name", "cutdot": "cut at first dot", "cutext": "strip last extension"}.get(x[0], x[0]), st(x[1]))
     return "%s/<%s>%s" % (np[0], st(np[1]), np[2])
 
 
